@@ -6,7 +6,7 @@ On success stores it as /verif/seeded/<ID>-<mN>/ (patch.diff, demo, notes.md, me
 import sys, os, subprocess, json, shutil, re, time
 pid, m = sys.argv[1:3]
 src = sys.argv[3] if len(sys.argv) > 3 else f'/tmp/mutout/{pid}/{m}'
-wt = '/root/scratch/mut'
+wt = os.environ.get('CONFIRM_WT', '/root/scratch/mut')
 env = dict(os.environ, GOFLAGS='-mod=mod', GOPROXY='off', GOSUMDB='off', GOTOOLCHAIN='local')
 def sh(cmd, cwd=wt, timeout=1500):
     r = subprocess.run(cmd, cwd=cwd, env=env, capture_output=True, text=True, shell=isinstance(cmd, str), timeout=timeout)
